@@ -162,6 +162,14 @@ def main():
     for name in order:
         for s, c in merged[name]['known_hits'].items():
             known_seen[s] = known_seen.get(s, 0) + c
+    if hasattr(mod, 'finalize'):
+        for sig, msg, case in mod.finalize({name: {'evaluations': merged[name]['evaluations'], 'known_hits': merged[name]['known_hits']} for name in order}):
+            if sig in known:
+                continue
+            fn = os.path.join('replays', pid, 'aggregate-%s.json' % runner.fp_of(sig)[:8])
+            with open(os.path.join(VERIF, fn), 'w') as f:
+                json.dump({'property': pid, 'sub': 'aggregate', 'signature': sig, 'message': msg, 'case': case}, f, indent=1)
+            viol_lines.append((sig, msg, fn))
 
     evaluations = sum(m['evaluations'] for m in merged.values())
     distinct = sum(len(m['fps']) + m['nt_count'] for m in merged.values())
